@@ -244,12 +244,19 @@ def accessors(repo, res):
     from engine.pat import find_all
 
     io = co.params[0]
-    b = find_all(co.node, [
-        f"__first = getattr({io}[0], 'units', NULL_UNIT)",
-        f"__acc.append(__el.in_units(__first.units))",
-        f"__ret = unyt_array(np.array(__acc), __first, registry=registry)",
-        f"raise IterableUnitCoercionError(str({io}))",
-    ])
+    b = None
+    # the registry may be handed to the constructor by keyword or as its third positional parameter
+    new_sig = [x.arg for x in arr.func("unyt_array.__new__").node.args.args]
+    ctor_forms = ["unyt_array(np.array(__acc), __first, registry=registry)"]
+    if new_sig[:4] == ["cls", "input_array", "units", "registry"]:
+        ctor_forms.append("unyt_array(np.array(__acc), __first, registry)")
+    for cf in ctor_forms:
+        b = b or find_all(co.node, [
+            f"__first = getattr({io}[0], 'units', NULL_UNIT)",
+            f"__acc.append(__el.in_units(__first.units))",
+            f"__ret = {cf}",
+            f"raise IterableUnitCoercionError(str({io}))",
+        ])
     res.check(b is not None, "coerce-list", co.where(), "a list of quantities in mixed units is converted element by element into the first element's unit; failure raises IterableUnitCoercionError", rid=r2)
     b2 = find_all(co.node, [f"__first = getattr({io}[0], 'units', NULL_UNIT)", f"any((__first != getattr(_c0, 'units', NULL_UNIT) for _c0 in {io}))"])
     res.check(b2 is not None, "coerce-list:test", co.where(), "mixed units are detected by comparing every element's unit with the first", rid=r2)
